@@ -143,7 +143,7 @@ CLAIMED = {
     'C07': {
         'category': 'proof',
         'text': ('Kernel-checked on an instrumented transcription of the slice decoder (every with_capacity(cautious(len)), vec![0; min(len, 1 MiB)], resize and push growth recorded as allocation events; size_of a parameter supplied by the harness; '
-                 'cautious transcribed with its `as u32` truncation and division) that provably returns the same result as the decoder (C07_erasure): no panic for every type and byte string (C07_no_panic; the division needs 0 < size_of < 2^32, shown necessary by C07_hint_div0); '
+                 'cautious transcribed with its division) that provably returns the same result as the decoder (C07_erasure): no panic for every type and byte string (C07_no_panic; the only hypothesis is that a type which is not zero-sized has a positive size_of - the earlier hypothesis size_of < 2^32 exposed defect F15, repaired; hint::cautious compiled from its source file is compared with the model on sizes up to 2^40); '
                  'cautious(len) * size_of <= max(4096, size_of) (C07_hint); the byte-loop buffer never exceeds max(min(len, 1 MiB), 2 * consumed) (C07_bulk, C07_bulk_requests); for every type of the family (collection elements take >= 1 byte on the wire or are refused as ZST) '
                  'the largest single request, the number of element decodes and the total requested bytes are bounded by explicit constants + constants * |input| (C07_prefix_alone, C07_work, C07_alloc, C07_consumed), and by TIGHT constants in which the failure constant is additive through nesting because only one element decode can fail '
                  '(C07_alloc_tight, C07_work_tight: total requested <= F0 + S1 * |input| with e.g. F0 = 1 MiB + 4 KiB, S1 = 101 for Vec<Vec<u8>>; C07_alloc_success: an accepted input costs at most S1 * bytes consumed, never the 1 MiB; C07_tight_le_loose). '
